@@ -285,6 +285,28 @@ def misc(rep, tier):
                 if got != [freshv[w] for w in trip]:
                     rep.violation("validator thr=%r ch=%d uc=%r windows=%r" % (thr, ch, uc, [w.hex() for w in trip]),
                                   "verdicts %r depend on history (fresh: %r)" % (got, [freshv[w] for w in trip]), {"kind": "misc"})
+    # somebody else converted the same bytes to an array and edited that array: verdicts are unaffected
+    import numpy as np
+    from auditok import signal as _sig
+
+    for ch in (1, 2):
+        for loud in (True, False):
+            w = ((b"\x10\x27" if loud else b"\x01\x00") * ch) * 4
+            for how in ("region.numpy", "to_array", "asarray"):
+                rep.add("evaluations")
+                want = bool(util.AudioEnergyValidator(50, 2, ch).is_valid(bytes(w)))
+                reg = core.AudioRegion(bytes(w), 10, 2, ch)
+                arr = reg.numpy() if how == "region.numpy" else (_sig.to_array(bytes(w), 2, ch) if how == "to_array" else np.asarray(reg))
+                try:
+                    arr *= 0 if loud else 30000
+                    arr += 0 if loud else 30000
+                except Exception:
+                    pass
+                got = bool(util.AudioEnergyValidator(50, 2, ch).is_valid(bytes(w)))
+                if got != want:
+                    rep.violation("verdict after array edit how=%s ch=%d loud=%s" % (how, ch, loud),
+                                  "after an array made from equal bytes (%s) was edited in place, the window is judged %r, before %r" % (how, got, want),
+                                  {"kind": "misc"})
     # deep histories: a verdict repeated after hundreds / thousands of other distinct windows
     for nbetween in (130, 300, 520, 700, 1100, 2100):
         for thr, ch in ((50, 1), (50, 2)):
